@@ -5,7 +5,8 @@ TRUSTED_BASE = [
     "no Axiom/Parameter/Admitted in the development (grepped on every run); Print Assumptions output captured per theorem",
     "hand-written Gallina model of the mxj functions named in the theorems (coq/Model/*.v), tied to /repo by the correspondence check on every run",
     "harness mxjh (Go): generators, projection of observables (values with Go dynamic type tags, error class, panic flag, receiver after the call), Go-side oracle",
-    "Go standard library (encoding/xml tokenizer, encoding/json, strconv, fmt, sort) is the environment: modelled as tokens/oracles, not verified",
+    "Go standard library (encoding/xml tokenizer, encoding/json, encoding/gob, strconv, fmt, sort, os) is the environment: modelled as tokens/oracles/Section variables, not verified",
+    "translator go2v (/verif/translator: Go -> Gallina, statement by statement; fragment, modes (CPS, join, lenient, write-back, cursor, handler) and the mapping of library calls in its sources; vocabulary coq/Gen/PureSupport.v): the *_code_* theorems re-exported in Props/<id>.v are about its output Gen/Pure_gen.v, regenerated from /repo on this run and proved equal to the hand-written model (coq/GenProofs); it fails closed on constructs outside its fragment; its assumptions are listed in DESIGN.md 11.3",
 ]
 
 KV_ASSUME = [
@@ -44,15 +45,15 @@ PROPS["C09"] = _kv("C09", "LeafNodes lists every terminal value once, with a pat
 PROPS["C09"]["gen"] = ["setters", "pure"]
 PROPS["C10"] = _kv("C10", "UpdateValuesForPath changes only the addressed values and reports how many", {"quick": 4000, "thorough": 60000},
     "Theorems over the model of updateValuesForKeyPath/updateValue (functional rebuild of the in-place update); correspondence of the resulting Map and count; oracle compares with the addressed-positions specification.",
-    "Trusted: Coq kernel; model validated by correspondence; getSubKeyMap and hasSubKeys (the sub-key conditions) additionally re-translated from the current source by go2v on every run and proved equal to the model (C10_get_sub_key_map_code_is_model, C10_has_sub_keys_code_is_model); two recorded findings (create-on-absent, list node before the last key).")
+    "Trusted: Coq kernel; model validated by correspondence; getSubKeyMap and hasSubKeys (the sub-key conditions) additionally re-translated from the current source by go2v on every run and proved equal to the model (C10_get_sub_key_map_code_is_model, C10_has_sub_keys_code_is_model), and the four updater functions themselves in write-back mode (C10_update_values_for_path_code_is_model and the three below it); two recorded findings (create-on-absent, list node before the last key).")
 PROPS["C10"]["gen"] = ["setters", "pure"]
 PROPS["C11"] = _kv("C11", "SetValueForPath, Remove, RenameKey touch exactly one entry or fail cleanly", {"quick": 4000, "thorough": 60000},
     "Theorems over the models of SetValueForPath (located ValuesForPath + write), Remove and RenameKey (prevValueByPath + write); correspondence of the Map after the call and of the error class; oracle checks post-condition, frame and fail-clean on the implementation.",
-    "Trusted: Coq kernel; model validated by correspondence; Map.Exists and Map.ValuesForPath (RenameKey's pre-checks, SetValueForPath's lookup) additionally re-translated from the current source by go2v on every run and proved equal to the model (C11_exists_code_is_model, C11_values_for_path_code_is_model; the indexed-path loop valuesForArray is translated but its equality with the model is checked by correspondence only).")
+    "Trusted: Coq kernel; model validated by correspondence; Map.Exists and Map.ValuesForPath (RenameKey's pre-checks, SetValueForPath's lookup) additionally re-translated from the current source by go2v on every run and proved equal to the model (C11_exists_code_is_model, C11_values_for_path_code_is_model), and SetValueForPath, Remove, RenameKey with their helpers themselves (write-back mode; C11_SetValueForPath_code_is_model, C11_Remove_code_is_model, C11_RenameKey_code_is_model).")
 PROPS["C11"]["gen"] = ["setters", "pure"]
 PROPS["C12"] = _kv("C12", "NewMap builds exactly the requested projection and leaves the source unchanged", {"quick": 4000, "thorough": 60000},
     "Theorems over the model of NewMap/addNewVal; correspondence of the built Map, the error class and the receiver after the call; oracle checks receiver deep-equality and the projection content.",
-    "Trusted: Coq kernel; model validated by correspondence; immutability of Gallina values hides aliasing, so non-modification of the receiver is observed by the harness (deep comparison) on every case; Map.ValuesForPath (the source of the old values) additionally re-translated from the current source by go2v on every run and proved equal to the model (C12_values_for_path_code_is_model).")
+    "Trusted: Coq kernel; model validated by correspondence; immutability of Gallina values hides aliasing, so non-modification of the receiver is observed by the harness (deep comparison) on every case; Map.ValuesForPath (the source of the old values) additionally re-translated from the current source by go2v on every run and proved equal to the model (C12_values_for_path_code_is_model), and NewMap, addNewVal and copyMapShallow themselves (cursor mode; C12_new_map_code_is_model_full, C12_add_new_val_code_is_model).")
 PROPS["C12"]["gen"] = ["setters", "pure"]
 
 XML_ASSUME = [
